@@ -17,6 +17,22 @@ def ladders(tier):
             "cps": [2, 3, 4, 5, 6, 7], "rec": [1, 2, 5, 10, 30, 100, 300, 1000, 3000]}
 
 
+def rec_ladder(base, rng):
+    """cycle limits for one program: the fixed ladder plus limits of its own - just above a power of
+    two (the reference snapshot of quick_term_or_rec is retaken at doubling intervals, so what a
+    limit can see depends on where it falls between two snapshots; seeded change C15-E shows only
+    for limits in (2^k, 2^k + 2^k/8)) and log-uniform ones.  Consecutive limits are compared."""
+    top = base[-1]
+    extra = set()
+    for _ in range(3):
+        k = rng.randrange(3, max(4, top.bit_length()))
+        extra.add(min(top, (1 << k) + rng.randrange(1, max(2, (1 << k) // 8 + 1))))
+        extra.add(min(top, (1 << k) + rng.randrange(1, max(2, (1 << k) // 2))))
+    for _ in range(2):
+        extra.add(min(top, int(2 ** rng.uniform(1, top.bit_length()))))
+    return sorted(set(base) | extra)
+
+
 def dims(prog):
     rows = prog.split("  ")
     return len(rows), len(rows[0].split(" "))
@@ -42,6 +58,7 @@ def check(rep, tier, seed, replay):
     lad = ladders(tier)
     progs = programs(tier, seed)
     groups = []     # (family, [lines in ladder order])
+    lrng = random.Random(seed * 15485863 + 1515)
     for p in progs:
         st, co = dims(p)
         for g in GOALS:
@@ -50,7 +67,7 @@ def check(rep, tier, seed, replay):
             groups.append(("segment", [f"segp_{g} {st} {co} {s} | {p}" for s in lad["segment"]]))
             groups.append(("cps", [f"cps_{g} {r} | {p}" for r in lad["cps"]]))
         if p.startswith("1RB"):
-            groups.append(("rec", [f"rec {n} | {p}" for n in lad["rec"]]))
+            groups.append(("rec", [f"rec {n} | {p}" for n in rec_ladder(lad["rec"], lrng)]))
     corpus = core.corpus_lines("C15")
     lines = corpus + [l for _, ls in groups for l in ls]
     impl = core.run_harness(lines)
@@ -88,7 +105,7 @@ def check(rep, tier, seed, replay):
                        "6x2/4x3/2x6, stride slices of 3x2/2x3, named machines; each of the four deciders (backward reasoner, segment analysis through the wrapper and "
                        "the trait API, CPS, quick recurrence on normal-form programs) x three goals is called at every limit of a ladder "
                        f"(depth {lad['reason'][0]}..{lad['reason'][-1]}, segments {lad['segment'][0]}..{lad['segment'][-1]}, radius {lad['cps'][0]}..{lad['cps'][-1]}, "
-                       f"cycles {lad['rec'][0]}..{lad['rec'][-1]}); the real answers at consecutive limits are compared (by transitivity this covers every pair on the ladder). "
+                       f"cycles {lad['rec'][0]}..{lad['rec'][-1]} plus, per program, limits just above powers of two and log-uniform ones); the real answers at consecutive limits are compared (by transitivity this covers every pair on the ladder). "
                        "Distinct non-trivial = distinct (decider, goal, program) ladders on which the answer changes from 'limit reached' to a verdict.")
     rep.cov["samples"] = [groups[0][1][0], groups[len(groups) // 2][1][-1], groups[-1][1][0]]
     rep.cov["ladders_by_decider"] = fam_counts
